@@ -25,25 +25,36 @@ def ev? : Sexp → Option Ev
 
 structure St where
   fixed : Bool := true
-  tl : TL := {}
+  tls : List (Nat × TL) := []
+
+def St.get (st : St) (k : Nat) : TL :=
+  match st.tls.find? (fun p => p.1 == k) with
+  | some p => p.2
+  | none => {}
+
+def St.set (st : St) (k : Nat) (s : TL) : St :=
+  { st with tls := (k, s) :: st.tls.filter (fun p => p.1 != k) }
 
 def handle (st : St) (req : Sexp) : St × Sexp :=
   match req with
   | .list [.atom "reset", f] =>
     match f.asBool? with
-    | some f => ({ fixed := f, tl := {} }, .atom "ok")
+    | some f => ({ fixed := f, tls := [] }, .atom "ok")
     | none => (st, bad)
-  | .list [.atom "step", e] =>
-    match ev? e with
-    | none => (st, bad)
-    | some e => match step st.fixed st.tl e with
+  | .list [.atom "step", k, e] =>
+    match k.asNat?, ev? e with
+    | some k, some e => match step st.fixed (st.get k) e with
       | none => (st, .list [.atom "disabled"])
-      | some (s', o) => ({ st with tl := s' }, .list [.atom "ok", .atom (outS o), stateS s'])
-  | .list [.atom "enabled", e] =>
-    match ev? e with
+      | some (s', o) => (st.set k s', .list [.atom "ok", .atom (outS o), stateS s'])
+    | _, _ => (st, bad)
+  | .list [.atom "enabled", k, e] =>
+    match k.asNat?, ev? e with
+    | some k, some e => (st, Sexp.ofBool (step st.fixed (st.get k) e).isSome)
+    | _, _ => (st, bad)
+  | .list [.atom "state", k] =>
+    match k.asNat? with
+    | some k => (st, stateS (st.get k))
     | none => (st, bad)
-    | some e => (st, Sexp.ofBool (step st.fixed st.tl e).isSome)
-  | .list [.atom "state"] => (st, stateS st.tl)
   | _ => (st, bad)
 
 def main : IO Unit := runDriver handle {}
